@@ -1,5 +1,6 @@
 import Lean.Data.Json
 import MontePyVerif.Spec.File
+import MontePyVerif.Spec.GeomEval
 /-! Driver for the independent MCNP-rules reader: one JSON request per line
     `{"limit":128,"lines":["..."]}` ↦ the denotation of the file as JSON. -/
 open Lean MontePyVerif.Spec.File
@@ -56,6 +57,14 @@ def handle (j : Json) : Except String Json := do
       ("head", ss b.head), ("surf_head", ss b.surfHead), ("data_head", ss b.dataHead),
       ("cells", Json.arr (b.cells.map cg).toArray), ("surfaces", Json.arr (b.surfaces.map cj).toArray),
       ("data", Json.arr (b.data.map cj).toArray)]
+  | .ok (Json.str "geomeq") =>
+    -- lines[0] and lines[1]: two geometries as blank-separated words
+    match lines with
+    | [a, b] =>
+      (match MontePyVerif.Spec.GeomEval.sameRegion (wordsAux true a.toList [] []) (wordsAux true b.toList [] []) with
+       | some r => return toJson r
+       | none => return Json.null)
+    | _ => throw "geomeq needs two lines"
   | .ok (Json.str "number") =>
     return Json.arr ((lines.map (fun l => match parseNumber l.toList with | some q => qJ q | none => Json.null)).toArray)
   | _ => return probJ (denote limit (lines.map (·.toList)))
